@@ -32,6 +32,11 @@ PROPS = {
         'verus': [{'group': 'c04_zset_arith'}],
         'explanation': 'rank-range arithmetic of ZRANGE/ZREVRANGE/ZRANK against spec_zrange with the skip list behind an assumed contract',
     },
+    'C20': {
+        'level': 'proof',
+        'verus': [{'group': 'c20_parser'}],
+        'explanation': 'request-grammar parser functions proved against the RESP oracle (spec/resp.rs) incl. chunking lemmas over the oracle; aggregate parsers proved safe, progressing and allocation-bounded',
+    },
     'C08': {
         'level': 'proof',
         'verus': [{'group': 'shard_core'}],
